@@ -279,7 +279,9 @@ RECURSIVE EffFuncs(_, _, _)
 RECURSIVE ExposeFrom(_, _, _, _)
 ExposeFrom(acc, bname, fs, k) ==    \* acc = [used, out]; fs = seq of [name, vis]
   IF k > Len(fs) THEN acc
-  ELSE IF fs[k].vis # "pub" THEN ExposeFrom(acc, bname, fs, k + 1)
+  (* a function the user hides (its own name starts with `_`) is not part of the type's interface *)
+  ELSE IF fs[k].vis # "pub" \/ (StartsUnderscore(fs[k].name) /\ ("field" \notin DOMAIN fs[k] \/ fs[k].field = ""))
+       THEN ExposeFrom(acc, bname, fs, k + 1)
   ELSE LET nm == IF fs[k].name \in acc.used THEN bname \o "_" \o fs[k].name ELSE fs[k].name
        IN ExposeFrom([used |-> acc.used \cup {nm},
                       out |-> Append(acc.out, [name |-> nm, field |-> bname, orig |-> fs[k].name, vis |-> "pub"])],
@@ -388,5 +390,59 @@ MentionsGeneratedIn(inp) ==
          d == m.defs[x[2]]
      IN \E ty \in FieldTypes(d) \cup FnTypes(m, d) : TyNames(ty) \cap GeneratedNamesOf(inp) # {}
 
+
+(* --------- C13 / C14: names that would denote the same Rust item -------- *)
+(* Plain, HasDupNames, NamesOf: Base.tla *)
+ArgNames(f) == NamesOf(SelectSeq(f.args, LAMBDA a : a.k = "named"))
+
+(* inside one type: its fields (with the pointer field the type owns), the slots of its table, *)
+(* its methods (generated accessors, wrappers of the virtual functions, impl functions), and   *)
+(* the parameters of each function                                                             *)
+TypeNameClash(inp, m, d) ==
+  LET fnames == (IF OwnsVptr(inp, m, d) THEN <<"vftable">> ELSE <<>>)
+                \o SelectSeq(NamesOf(d.fields), LAMBDA n : n # "_")
+      vnames == NamesOf(d.vft.funcs)
+      bi == LastIdx(m.impls, LAMBDA b : b.name = d.name)
+      ifuncs == IF bi = 0 THEN <<>> ELSE m.impls[bi].funcs
+      accessors == (IF HasVftD(inp, Join(m.path, d.name), 8) THEN <<"vftable">> ELSE <<>>)
+                   \o (IF IsSome(d.singleton) THEN <<"get">> ELSE <<>>)
+  IN \/ HasDupNames(fnames)
+     \/ HasDupNames(accessors \o vnames \o NamesOf(ifuncs))
+     \/ \E i \in DOMAIN d.vft.funcs : HasDupNames(ArgNames(d.vft.funcs[i]))
+     \/ \E i \in DOMAIN ifuncs : HasDupNames(ArgNames(ifuncs[i]))
+
+(* two declarations of one module that would produce the same item (last clause of C14) *)
+ModuleItemClash(m) == HasDupNames(NamesOf(m.defs) \o NamesOf(m.exts)) \/ HasDupNames(NamesOf(m.evals))
+SameItemClash(inp) == \E mi \in DOMAIN inp.mods : ModuleItemClash(inp.mods[mi])
+
+NameClash(inp) ==
+  \/ SameItemClash(inp)
+  \/ \E mi \in DOMAIN inp.mods :
+        LET m == inp.mods[mi]
+        IN \E di \in DOMAIN m.defs :
+             IF m.defs[di].k = "type" THEN TypeNameClash(inp, m, m.defs[di])
+             ELSE HasDupNames(NamesOf(m.defs[di].vars))
+
+(* ------------- C13: derives that cannot be satisfied, enums without cases ------------- *)
+RECURSIVE ByValuePath(_)
+ByValuePath(rt) == IF rt = TNone THEN <<>> ELSE IF rt.k = "raw" THEN rt.p ELSE IF rt.k = "arr" THEN ByValuePath(rt.t) ELSE <<>>
+(* a copyable (cloneable) type embeds, by value or in an array, an emitted type that is not; extern *)
+(* types are supplied by the user and built-ins have both                                          *)
+DeriveUnsat(inp) ==
+  \E mi \in DOMAIN inp.mods :
+    LET m == inp.mods[mi]
+    IN \E di \in TypeDefsOf(m) :
+         LET d == m.defs[di]
+         IN (d.copyable \/ d.cloneable) /\
+            \E fi \in DOMAIN d.fields :
+               LET p == ByValuePath(DTy(inp, m, d.fields[fi].ty))
+                   x == DefAt(inp, p)
+               IN /\ p # <<>> /\ p \notin {<<n>> : n \in BuiltinNames} /\ p \notin DOMAIN ExtMap(inp)
+                  /\ IF x = <<0, 0>> THEN TRUE      \* a generated vftable struct: no derives
+                     ELSE LET e == inp.mods[x[1]].defs[x[2]]
+                          IN (d.copyable /\ ~e.copyable) \/ ~(e.cloneable \/ e.copyable)
+EmptyEnum(inp) ==
+  \E mi \in DOMAIN inp.mods : \E di \in DOMAIN inp.mods[mi].defs :
+     inp.mods[mi].defs[di].k = "enum" /\ inp.mods[mi].defs[di].vars = <<>>
 
 =============================================================================
